@@ -8,6 +8,8 @@ structure DSt where
   stream : Bool := true
   addrs : List (Nat × List Nat) := []      -- address pool: index ↦ protocol codes (as observed by the harness)
   names : List (String × Nat) := []        -- multiaddr.ProtocolWithName(name).Code as observed by the harness
+  folds : List (String × String) := []     -- pairs (a, b) with strings.EqualFold(a, b), as observed by the harness
+  lowers : List (String × String) := []    -- strings.ToLower, as observed by the harness (identity when absent)
   recs : List (Option Rec) := []
 
 def dash (s : String) : String := if s == "-" then "" else s
@@ -42,6 +44,41 @@ def showRec (r : Rec) : String :=
 
 def splitRaw (s : String) : List String := if s == "" then [] else s.splitOn ","
 
+def DSt.env (s : DSt) : Env where
+  codeOf := fun n => (s.names.lookup n).getD 0
+  fold := fun a b => a.toLower == b.toLower || s.folds.contains (a, b)   -- ASCII fallback + observed table
+  lower := fun x => (s.lowers.lookup x).getD x.toLower
+
+def parsePairs (sep : String) (ts : List String) : Option (List (String × String)) :=
+  ts.mapM fun t => match t.splitOn sep with
+    | [a, b] => some (a, b)
+    | _ => none
+
+def parseAccept (t : String) : Option (List MT) :=
+  if t == "none" then some [] else
+  (t.splitOn "+").mapM fun
+    | "json" => some MT.json
+    | "jsonq" => some MT.json
+    | "ndjson" => some MT.ndjson
+    | "wild" => some MT.wildcard
+    | "html" => some MT.other
+    | "bad" => some MT.bad
+    | _ => none
+
+/-- scenario tables of the IPNS ops: which step of the handler fails -/
+def putScenario : String → Option PutReq
+  | "ok" => some ⟨true, true, true, true, true, true⟩
+  | "noct" => some ⟨false, true, true, true, true, true⟩
+  | "badcid" => some ⟨true, false, true, true, true, true⟩
+  | "notname" => some ⟨true, true, false, true, true, true⟩
+  | "garbage" => some ⟨true, true, true, false, true, true⟩
+  | "toolong" => some ⟨true, true, true, false, true, true⟩
+  | "badsig" => some ⟨true, true, true, true, false, true⟩
+  | "wrongname" => some ⟨true, true, true, true, false, true⟩
+  | "expired" => some ⟨true, true, true, true, false, true⟩
+  | "routererr" => some ⟨true, true, true, true, true, false⟩
+  | _ => none
+
 def step (s : DSt) (ln : String) : DSt × String :=
   match (ln.trimAscii.toString.splitOn " ").filter (· ≠ "") with
   | ["case", n] => ({}, s!"case {n}")
@@ -58,19 +95,45 @@ def step (s : DSt) (ln : String) : DSt × String :=
     match parseNames ts with
     | some t => ({ s with names := t }, "ok")
     | none => (s, "bad-op")
+  | "folds" :: ts =>
+    match parsePairs "~" ts with
+    | some t => ({ s with folds := t }, "ok")
+    | none => (s, "bad-op")
+  | "lowers" :: ts =>
+    match parsePairs "=" ts with
+    | some t => ({ s with lowers := t }, "ok")
+    | none => (s, "bad-op")
+  | ["raw", kind, acc, fa, fp] =>
+    match parseAccept acc with
+    | some accepts =>
+      let cfg : SrvCfg := { recordsLimit := s.jsonLim, streamingRecordsLimit := s.ndLim, disableNDJSON := !s.stream }
+      match findHandler s.env cfg (kind == "peers") accepts (dash fa) (dash fp) s.recs with
+      | (code, none) => (s, s!"status={code} ct=- n=0 ")
+      | (code, some (m, out)) =>
+        (s, s!"status={code} ct={if m == .ndjson then "ndjson" else "json"} n={out.length} {";".intercalate (out.map showRec)}")
+    | none => (s, "bad-op")
+  | ["put", sc] =>
+    match putScenario sc with
+    | some r => let (code, reached) := putStatus r; (s, s!"status={code} router={if reached then 1 else 0}")
+    | none => (s, "bad-op")
+  | ["getipns", acc, cidk, look] =>
+    let acceptOk := acc == "none" || acc == "wild" || acc == "ipns" || acc == "json+ipns"
+    let l := if look == "found" then Lookup.found else if look == "err" then Lookup.error else Lookup.notFound
+    let (code, body) := getStatus acceptOk (cidk != "badcid") (cidk != "notname") l
+    (s, s!"status={code} record={if body then 1 else 0}")
   | "recs" :: ts =>
     match ts.mapM (parseRec s.addrs) with
     | some rs => ({ s with recs := rs }, "ok")
     | none => (s, "bad-op")
   | ["find", kind, loc, fa, fp] =>
-    let codeOf := fun n => (s.names.lookup n).getD 0
+    let codeOf := s.env
     let fa := dash fa
     let fp := dash fp
     let lim := if s.stream then s.ndLim else s.jsonLim
-    let sfa := parseFilter fa
-    let sfp := parseFilter fp
+    let sfa := parseFilter codeOf fa
+    let sfp := parseFilter codeOf fp
     let out := if kind == "peers" then servePeers codeOf sfa sfp s.recs lim else serveProviders codeOf sfa sfp s.recs lim
-    let out := if loc == "1" then clientFilter codeOf (normalizeFilter (splitRaw fa)) (normalizeFilter (splitRaw fp)) out else out
+    let out := if loc == "1" then clientFilter codeOf (normalizeFilter codeOf (splitRaw fa)) (normalizeFilter codeOf (splitRaw fp)) out else out
     (s, s!"n={out.length} {";".intercalate (out.map showRec)}")
   | ["ipns", kind] =>
     (s, if kind == "ok" then "put=ok get=same" else "put=rejected get=notfound")
